@@ -332,3 +332,6 @@ for _p in ("C12", "C02"):
 H("C14", "html/document", "VxH_C14_write", mode="real", reach=["rendered", "written", "dangling-link"], bounds="three 10px sections on 100px pages, each with id A / B / none, the second and third optionally starting a new page, two <a> elements with href in {#A, #B, #missing, external} (quick: the third section A / none, the second link #A / #missing); zoom a symbolic real in [0.25, 4]; Render + Write on a recording backend.Document", quick={"maxsteps": 300000000, "time": "800s", "shards": 8})
 H("C07", "css/validation", "VxH_C07_font", reach=["validated", "accepted"], bounds="font shorthand value of 0..3 (thorough 4) tokens over 14 kinds (style / weight / stretch / family keywords, 12px, 50%, 2, '/', ',', a string)", quick={"shards": 4})
 H("C07", "html/tree", "VxH_C07_page_selectors", reach=["parsed", "accepted"], bounds="@page prelude of 0..3 (thorough 4) tokens over identifiers, ':', ',', white space, nth() with 10 argument lists, another function, a number, a hash", quick={"shards": 4})
+for _p in ("C19", "C01"):
+    H(_p, "css/counters", "VxH_C19_fallback_cycles", reach=["terminated", "user-style-renders"], bounds="2 (thorough 3) user styles, each fixed (1 symbol) / alphabetic (2 symbols) / additive (one weight 2) with range auto, fallback any of the user styles, decimal or a missing name; value 0..4", quick={"shards": 4})
+H("C19", "css/counters", "VxH_C19_extends_merge", reach=["rendered"], bounds="a numeric base style (3 digits, range 1..3, pad 2, negative ~) extended by a style that declares or not each of range (unset / auto / two intervals), pad, negative, fallback; value -3..8")
